@@ -18,6 +18,8 @@ def check_code(code: str, settings=None, apply_changes=False, **kwargs):
     _counter[0] += 1
     mod = types.ModuleType(f"verif_mod_{_counter[0]}")
     mod.__file__ = f"/tmp/verif_mod_{_counter[0]}.py"
+    import linecache
+    linecache.cache[mod.__file__] = (len(code), None, code.splitlines(True), mod.__file__)  # inspect.getsource for @evaluated
     with contextlib.redirect_stderr(io.StringIO()), contextlib.redirect_stdout(io.StringIO()):
         exec(compile(code, mod.__file__, "exec"), mod.__dict__)
         sys.modules[mod.__name__] = mod
